@@ -142,7 +142,7 @@ class Check(PropertyCheck):
             alpha = "-|+" + (LABELS[: self.rng.range(1, 8)] if self.rng.chance(1, 2) else "")
             if self.rng.chance(1, 5):
                 # label characters whose code point truncated to a byte is a blank or a drawing character
-                alpha += self.rng.choice(gen.ALIAS) + self.rng.choice(gen.ALIAS)
+                alpha += self.rng.choice(gen.ALIAS_LABELS) + self.rng.choice(gen.ALIAS_LABELS)
             dens = self.rng.choice([30, 55, 80, 100])
             rows = ["".join(self.rng.choice(alpha) if self.rng.below(100) < dens else " " for _ in range(w)) for _ in range(h)]
             out.append(rows)
@@ -212,7 +212,7 @@ class Check(PropertyCheck):
         return fails
 
     def oracle_on_texts(self, texts):
-        ok = set("-|+ \n") | set("abcdefghijklmnpqrstuwyzABCDEFGHIJKLMNPQRSTUWYZ0123456789") | set(gen.ALIAS)
+        ok = set("-|+ \n") | set("abcdefghijklmnpqrstuwyzABCDEFGHIJKLMNPQRSTUWYZ0123456789") | set(gen.ALIAS_LABELS)
         return self.oracle([t.split("\n") for t in texts if set(t) <= ok])
 
     def replay_case(self, case):
